@@ -37,3 +37,33 @@ Definition C27_index_key_statement : Prop :=
 Theorem C27_index_key : C27_index_key_statement.
 Proof. exact index_key_value_order. Qed.
 Print Assumptions C27_index_key.
+
+(* composite keys compare as (index id, value, node id) compare, for all
+   index ids below 2^32 and node ids below 2^64 *)
+From NDB Require Import Index.IndexKey_proofs.
+Definition C27_index_key_cmp_statement : Prop :=
+  forall i j a b n m c,
+    (i < two32)%N -> (j < two32)%N -> (n < two64)%N -> (m < two64)%N ->
+    wf a = true -> wf b = true -> val_cmp a b = Some c ->
+    lex_cmp (enc_index_key i a n) (enc_index_key j b m) = key_cmp i c n j m.
+Theorem C27_index_key_cmp : C27_index_key_cmp_statement.
+Proof. exact index_key_cmp. Qed.
+Print Assumptions C27_index_key_cmp.
+
+(* a composite key determines index id, value (up to 0.0 = -0.0) and node id *)
+Definition C27_index_key_inj_statement : Prop :=
+  forall i j a b n m,
+    (i < two32)%N -> (j < two32)%N -> (n < two64)%N -> (m < two64)%N ->
+    wf a = true -> wf b = true ->
+    enc_index_key i a n = enc_index_key j b m -> i = j /\ val_eq a b /\ n = m.
+Theorem C27_index_key_inj : C27_index_key_inj_statement.
+Proof. exact index_key_inj. Qed.
+Print Assumptions C27_index_key_inj.
+
+(* index trees sharing one B-tree never interleave *)
+Definition C27_index_id_order_statement : Prop :=
+  forall i j a b n m, (i < j)%N -> (j < two32)%N ->
+    lex_lt (enc_index_key i a n) (enc_index_key j b m).
+Theorem C27_index_id_order : C27_index_id_order_statement.
+Proof. exact index_key_index_order. Qed.
+Print Assumptions C27_index_id_order.
